@@ -4,9 +4,12 @@ Everything is deterministic and built FRESH from a small descriptor by `build_co
 
   Env03   two environments with different data (E0: 3 interactions over actions a,b,c; E1: 2 over x,y); every
           interaction carries the extra key 'env' (recorded in the rows by SequentialCB, so rows identify their env).
+          build_components(chunk=...) optionally pipes them into coba's Chunk filter (own / one shared Chunk object),
+          which makes ChunkTasks hand several tasks to one ProcessTasks.filter call.
   Lrn03   a HISTORY-REVEALING learner: the action it picks, the probability it reports and what it writes to
           CobaContext.learning_info are functions of everything it was taught so far (number of learn calls and
-          the rewards seen), so any state carried from one evaluation into another changes the rows.
+          the rewards seen), so any state carried from one evaluation into another changes the rows.  One of the
+          learning_info keys is written by this learner only, so a stale entry of another evaluation stays visible.
   Seq03   coba's real SequentialCB (subclassed only to carry a tag / the fault hooks).
   Scr03   a scripted generator evaluator: predicts on every interaction, teaches the learner on the even ones.
 
